@@ -58,6 +58,13 @@ def programs(draw, tier):
         st.tuples(st.just("other-scope")),
     )
     ops = [list(o) for o in draw(st.lists(op, max_size=20))]
+    if draw(st.integers(0, 3)) == 0:
+        # a slicing / batching / windowing tool is run to its END on the shared handle and the handle is used again:
+        # how far exactly the tool has read is what the next user of the handle sees
+        tname = draw(st.sampled_from(["islice3", "islice3", "islice", "batched", "pairwise", "zip3", "compress-selectors",
+                                      "zip_longest2", "takewhile", "zip_strict"]))
+        at = draw(st.integers(0, len(ops)))
+        ops[at:at] = [["tool", 0, tname, draw(st.integers(0, 3)), 6, False], ["next", 0], ["next", 0]]
     raise_at = draw(st.one_of(st.none(), st.none(), st.integers(0, 20)))
     return {"items": items, "kind": draw(st.sampled_from(["agen", "aclass", "aplain", "send", "list", "iter", "seq", "loan", "areiter", "aproxy"])),
             "susp": draw(st.integers(0, 1)), "ops": ops, "raise_at": raise_at,
